@@ -873,6 +873,18 @@ class Group:
             kw = mm.group(1)
             # find body '{' of loop at depth 0 from keyword
             j = mm.end()
+            if kw == "for":
+                # the loop pattern may itself contain braces (`for Attribute { key, value } in ..`): the body starts at
+                # the first `{` after the `in` keyword at depth 0
+                jj = j
+                while jj < len(m):
+                    c = m[jj]
+                    if c in "([{":
+                        jj = match_close(m, jj)
+                    elif re.match(r"\bin\b", m[jj:]) and not (m[jj - 1].isalnum() or m[jj - 1] == "_"):
+                        j = jj + 2
+                        break
+                    jj += 1
             while True:
                 c = m[j]
                 if c in "([":
@@ -898,6 +910,9 @@ class Group:
             head = body[mm.start():j]
             if binder and kw == "for":
                 hm = re.match(r"(for\s+.*?\s+in\s+)(.*)$", head, re.S)
+                if not hm:
+                    self.lost.append({"where": fn_id, "anchor": "loop %d (for .. in)" % n})
+                    continue
                 head = hm.group(1) + binder + ": " + hm.group(2)
             ann = []
             for kwd, lst in (("invariant_except_break", invx), ("invariant", invs), ("ensures", enss)):
